@@ -1664,6 +1664,11 @@ func Run(cfg hx.Config) error {
 	for i := 0; i < nv && !r.Stop(); i++ {
 		v1Scenario(r, rnd)
 	}
+	nf := cfg.N(60, 1500)
+	for i := 0; i < nf && !r.Stop(); i++ {
+		v1Faults(r, rnd)
+	}
+	r.Notes["v1_interrupted_exports"] = nf
 	r.Notes["v1_export_import_scenarios"] = nv
 	r.Notes["histories"] = nh
 	r.Notes["concurrent_scenarios"] = nc
